@@ -116,19 +116,18 @@ func (x *Exec) doSelect(site string, cases []selCase, hasDefault bool) (int, any
 			return false
 		}
 	}
-	if len(cases) == 1 {
-		d := "recv"
-		if cases[0].send {
-			d = "send"
+	o.descF = func() string {
+		if len(cases) == 1 {
+			d := "recv"
+			if cases[0].send {
+				d = "send"
+			}
+			if cases[0].cs == nil {
+				return d + " nil-chan"
+			}
+			return d + fmt.Sprintf(" chan %v cap=%d", cases[0].cs.ref.Type(), cases[0].cs.cap)
 		}
-		if cases[0].cs == nil {
-			d += " nil-chan"
-		} else {
-			d += fmt.Sprintf(" chan %v cap=%d", cases[0].cs.ref.Type(), cases[0].cs.cap)
-		}
-		o.desc = d
-	} else {
-		o.desc = fmt.Sprintf("select/%d", len(cases))
+		return fmt.Sprintf("select/%d", len(cases))
 	}
 	x.point(o)
 	if o.done {
